@@ -195,13 +195,17 @@ def backupDirsVisit : List Path → M Unit
 def backupDirs (resolvedDirPath : Path) : M Unit :=
   backupDirsVisit cfg (iterateDirTree resolvedDirPath)
 
+/-- the directory whose ancestor chain `tryBackup` backs up first: the path itself if it is a
+directory, its parent otherwise -/
+def backupDirPath (info : Option Info) (resolvedName : Path) : Path :=
+  match info with
+  | some i => if i.isDir then resolvedName else dir resolvedName
+  | none => dir resolvedName
+
 /-- `tryBackup(resolvedName)` -/
 def tryBackup (resolvedName : Path) : M Unit := do
   let (info, needsBackup) ← backupRequired cfg resolvedName
-  let dirPath := match info with
-    | some i => if i.isDir then resolvedName else dir resolvedName
-    | none => dir resolvedName
-  backupDirs cfg dirPath
+  backupDirs cfg (backupDirPath info resolvedName)
   if !needsBackup then pure ()
   else
     match info with
